@@ -62,6 +62,8 @@ def os_read(fd, n):
             W.sys_enter('read')
             W.log('read', (fd, n), 'EBADF')
             raise oserr(errno.EBADF)
+        if W is not None:
+            W.probe('real_fd_call')      # a pass-through to the real kernel would escape the simulation
         return _os.read(fd, n)
     W.sys_enter('read')
     K.touch(fd, 'read')
@@ -87,6 +89,8 @@ def os_write(fd, data):
             W.sys_enter('write')
             W.log('write', (fd, len(data)), 'EBADF')
             raise oserr(errno.EBADF)
+        if W is not None:
+            W.probe('real_fd_call')
         return _os.write(fd, data)
     W.sys_enter('write')
     K.touch(fd, 'write')
